@@ -182,11 +182,11 @@ impl From<&FormattingConfig> for ReconstructionSettings {
         // The core measures indents and continuations in counts of spaces or tabs, whereas here
         // it's measured as a count of 'indentations', so we have to convert.
         let (indent_width, continuation_width, tab) = if val.use_tabs {
-            (1, val.continuation_indents, TabKind::Hard)
+            (1, u16::from(val.continuation_indents), TabKind::Hard)
         } else {
             (
                 val.tab_width,
-                val.continuation_indents.saturating_mul(val.tab_width),
+                u16::from(val.continuation_indents) * u16::from(val.tab_width),
                 TabKind::Soft,
             )
         };
